@@ -175,3 +175,77 @@ Proof. vm_compute. reflexivity. Qed.
 
 Theorem grammar_total : forall txt, exists fuel t errs st, parse_with fuel grammar_prog grammar_entry txt = ParseOk t errs st.
 Proof. exact (parse_total _ _ _ _ grammar_chk_all grammar_bchk_all). Qed.
+
+(** * C02 (iii): parser work is linear in the number of raw tokens *)
+From TG.Proofs Require Import CostAn CostSound.
+
+Section LINEAR.
+Variable p : prog.
+Variable ce : cert.
+Variable entry : nat.
+Variable k : cconsts.
+Hypothesis CHK : chk_all p ce entry = true.
+Hypothesis CCHK : cchk p ce k = true.
+
+Lemma cchk_fns_spec : forall l f0, cchk_fns ce (c_zf k) (c_D k) (c_RM k) f0 l = true ->
+  forall i body, nth_error l i = Some body -> cchk_fn ce (c_zf k) (c_D k) (c_RM k) (f0 + i) body = true.
+Proof.
+  induction l as [|b l IH]; intros f0 H i body N; [destruct i; discriminate|].
+  cbn [cchk_fns] in H. apply andb_prop in H. destruct H as [H1 H2].
+  destruct i as [|i]; cbn in N.
+  - inversion N; subst. rewrite Nat.add_0_r. exact H1.
+  - replace (f0 + S i) with (S f0 + i) by lia. eapply IH; eauto.
+Qed.
+
+Lemma cchk_tab : forall f body, fn_body p f = Some body ->
+  znull ce (c_zf k) (rk ce f) body <= zfn (c_zf k) f /\ zc (c_zf k) body <= c_D k /\
+  loops_ok (c_zf k) (c_D k) body = true /\ rk ce f < c_RM k.
+Proof.
+  intros f body FB. unfold cchk in CCHK. apply andb_prop in CCHK. destruct CCHK as [C _].
+  pose proof (cchk_fns_spec _ _ C f body FB) as H. rewrite Nat.add_0_l in H. unfold cchk_fn in H.
+  apply andb_prop in H. destruct H as [H H4]. apply andb_prop in H. destruct H as [H H3].
+  apply andb_prop in H. destruct H as [H1 H2].
+  apply Nat.leb_le in H1, H2. apply Nat.ltb_lt in H4. auto.
+Qed.
+Lemma cchk_B : 2 + sigma (c_D k) (c_RM k) 0 <= c_B k.
+Proof. unfold cchk in CCHK. apply andb_prop in CCHK. destruct CCHK as [_ C]. apply Nat.leb_le in C. exact C. Qed.
+
+Theorem parse_linear : forall fuel txt t errs st,
+  parse_with fuel p entry txt = ParseOk t errs st ->
+  W st <= lin_K k entry * (List.length (raw_lex txt) + 1).
+Proof.
+  intros fuel txt t errs st H.
+  pose proof (chk_all_cert p ce entry CHK) as CERT.
+  unfold parse_with in H. set (s0 := p_new txt) in *.
+  destruct (fn_body p entry) as [body|] eqn:FB.
+  2:{ destruct fuel as [|n]; cbn [gexec] in H; [discriminate|]. rewrite FB in H. discriminate. }
+  destruct (cchk_tab entry body FB) as (_ & _ & _ & RK).
+  pose proof (cost_sound p ce k CERT cchk_tab cchk_B fuel (S (rk ce entry)) (ECall entry None) (top_fact) [] s0
+                (kmem_kall (cur s0)) (top_ok p ce entry CHK) eq_refl RK) as C.
+  assert (W0 : W s0 = 1).
+  { unfold s0, p_new. rewrite W_lex. reflexivity. }
+  assert (M0 : msr s0 <= 2 * List.length (raw_lex txt)).
+  { unfold s0, p_new. eapply Nat.le_trans; [apply p_lex_msr|]. unfold msr_pre, obit. cbn. lia. }
+  assert (K : forall s, claim ce k top_fact (S (rk ce entry)) (ECall entry None) s0 s ->
+            W s <= lin_K k entry * (List.length (raw_lex txt) + 1)).
+  { intros s (A & _ & P). cbn [zc] in P. unfold pot in P. unfold lin_K. fold (zfn (c_zf k) entry).
+    assert (X : c_B k * msr s0 <= c_B k * (2 * List.length (raw_lex txt))) by (apply Nat.mul_le_mono_l; exact M0).
+    set (n := List.length (raw_lex txt)) in *. set (BB := c_B k) in *. set (z := zfn (c_zf k) entry) in *.
+    assert (Y : W s <= 1 + BB * (2 * n) + z) by lia.
+    replace (BB * (2 * n)) with (2 * BB * n) in Y by lia.
+    rewrite Nat.mul_add_distr_l, Nat.mul_1_r. rewrite !Nat.mul_add_distr_r.
+    set (u := 2 * BB * n) in *. set (v := z * n). set (w := 1 * n). lia. }
+  destruct (gexec fuel p (ECall entry None) [] s0) as [v en s|en s|v en s| |]; try discriminate;
+    cbn [rclaim] in C; destruct (p_finish s) as [[t0 es]|]; try discriminate; inversion H; subst; apply K; exact C.
+Qed.
+End LINEAR.
+
+Definition grammar_cost : cconsts := Eval vm_compute in cost_consts grammar_prog grammar_cert.
+Lemma grammar_cchk : cchk grammar_prog grammar_cert grammar_cost = true.
+Proof. vm_compute. reflexivity. Qed.
+Definition grammar_K : nat := lin_K grammar_cost grammar_entry.
+
+Theorem grammar_linear : forall fuel txt t errs st,
+  parse_with fuel grammar_prog grammar_entry txt = ParseOk t errs st ->
+  W st <= grammar_K * (List.length (raw_lex txt) + 1).
+Proof. exact (parse_linear _ _ _ _ grammar_chk_all grammar_cchk). Qed.
